@@ -99,7 +99,7 @@ func parseSingleConstraint(c string) ([]*constraint, error) {
 	}
 
 	// Handle wildcard constraint (1.2.* or 1.x)
-	if strings.Contains(c, "*") || strings.Contains(c, "x") {
+	if (strings.Contains(c, "*") || strings.Contains(c, "x")) && isWildcardSyntax(c) {
 		return parseWildcardConstraint(c)
 	}
 
@@ -133,6 +133,14 @@ func parseSingleConstraint(c string) ([]*constraint, error) {
 		return nil, fmt.Errorf("invalid version in constraint '%s': %v", c, err)
 	}
 	return []*constraint{{operator: "=", version: version}}, nil
+}
+
+// isWildcardSyntax reports whether c is written with wildcard syntax (digits, dots and
+// * / x placeholders, optionally after a comparator) rather than being a version or branch
+// name that merely contains the letter x (e.g. 1.x-dev, feature-x, 1.0.0+build.x).
+func isWildcardSyntax(c string) bool {
+	c = strings.TrimLeft(c, "<>=!")
+	return strings.Trim(c, "0123456789.*x") == ""
 }
 
 // normalizeOperator normalizes operators for consistency
